@@ -17,7 +17,10 @@ def bases():
               modified='2017-01-01T00:00:00.000Z', external_references=[{'source_name': 's', 'url': 'u'}])
     m21 = stix2.v21.Malware(id='malware--311b2d2d-f010-4473-83ec-1edf84858f4c', is_family=True, **kw)
     m20 = stix2.v20.Malware(id='malware--311b2d2d-f010-4473-83ec-1edf84858f4c', **kw)
-    out = {'v21 SDO': m21, 'v20 SDO': m20, 'dict': dict(json.loads(m21.serialize()), revoked=False)}      # (a defaulted false is not serialized; the dictionary states it)
+    # a relationship object carrying the same property names (name as custom content), so that every selector of the family addresses something on it
+    r21 = stix2.v21.Relationship('identity--311b2d2d-f010-4473-83ec-1edf84858f4c', 'uses', 'identity--c78cb6e5-0c4b-4611-8297-d1b8b55e40b5',
+                                 id='relationship--311b2d2d-f010-4473-83ec-1edf84858f4c', allow_custom=True, **kw)
+    out = {'v21 SDO': m21, 'v20 SDO': m20, 'v21 SRO': r21, 'dict': dict(json.loads(m21.serialize()), revoked=False)}      # (a defaulted false is not serialized; the dictionary states it)
     return out
 
 
@@ -124,6 +127,21 @@ def run(chk):
                 if view(a12) != v0 | {(s, m), (s2, m)}: return ('add#multi-selector add with partial overlap', f'{ctx}: add({m[-4:]}, {s}) then add({m[-4:]}, [{s}, {s2}]) gives {sorted(view(a12) ^ (v0 | {(s, m), (s2, m)}))[:3]}', {})
                 b = markings.add_markings(markings.add_markings(st, M2, s2), m, s); c = markings.add_markings(markings.add_markings(st, m, s), M2, s2)
                 if view(b) != view(c): return ('add#order-independent', f'{ctx}: adds commute? {sorted(view(b) ^ view(c))[:3]}', {})
+        # lists of markings and lists of selectors in one call: the same set operations, pairwise
+        s2 = 'labels.[1]' if s != 'labels.[1]' else 'description'
+        ms2 = [M1, M2]; pairs = {(x, m) for x in (s, s2) for m in ms2}
+        try:
+            am = markings.add_markings(st, ms2, [s, s2])
+            if view(am) != v0 | pairs: return ('add#lists of markings and selectors', f'{ctx}: add({[m[-4:] for m in ms2]}, [{s}, {s2}]) differs from the union by {sorted(view(am) ^ (v0 | pairs))[:3]}', {})
+            if not (pairs & v0):
+                rm = markings.remove_markings(am, ms2, [s, s2])
+                if view(rm) != v0: return ('remove#lists of markings and selectors restore', f'{ctx}: removing the pairs just added leaves {sorted(view(rm) ^ v0)[:3]}', {})
+            cm = markings.clear_markings(am, [s, s2]); exp_c = frozenset((x, m) for (x, m) in view(am) if x not in (s, s2))
+            if view(cm) != exp_c: return ('clear#list of selectors', f'{ctx}: clear([{s}, {s2}]) leaves {sorted(view(cm) ^ exp_c)[:3]}', {})
+            sm = markings.set_markings(am, [M2], [s, s2]); exp_s = exp_c | {(s, M2), (s2, M2)}
+            if view(sm) != exp_s: return ('set#list of selectors', f'{ctx}: set([M2], [{s}, {s2}]) differs by {sorted(view(sm) ^ exp_s)[:3]}', {})
+        except (InvalidSelectorError, MarkingNotFoundError) as ex:
+            return ('add#lists of markings and selectors', f'{ctx}: list-valued call on ({s}, {s2}) raised {type(ex).__name__}', {})
         for inh, desc in itertools.product([False, True], repeat=2):
             got = set(markings.get_markings(st, s, inherited=inh, descendants=desc)); exp = expected_get(st, s, inh, desc)
             if got != exp: return (f'query#get_markings follows the path tree (inherited={inh}, descendants={desc})', f'{ctx}: get_markings({s}, inherited={inh}, descendants={desc}) = {sorted(x[-6:] for x in got)}, path-tree model {sorted(x[-6:] for x in exp)}', {})
@@ -148,7 +166,7 @@ def run(chk):
             if (sset, sexc) != (ca, cexc): return ('set#equals clear then add', f'{ctx}: set({m[-4:]}, {s}) = {sset and sorted(sset)[:3]}/{sexc}; clear;add = {ca and sorted(ca)[:3]}/{cexc}', {})
         return None
     chk.bounded('marking laws against the set model', list(cases()), check, classify=lambda c: c,
-                bound='3 base objects x states reachable by <= 2 adds (' + ('every 3rd state' if chk.tier == 'quick' else 'all') + ') x 11 selectors x 3 markings x 4 flag combinations')
+                bound='4 base objects (2.0 SDO, 2.1 SDO, 2.1 SRO, dictionary) x states reachable by <= 2 adds (' + ('every 3rd state' if chk.tier == 'quick' else 'all') + ') x 11 selectors x 3 markings x 4 flag combinations')
 
     # object-level laws natively (the proved contracts, on the real functions)
     def ocases():
@@ -176,4 +194,28 @@ def run(chk):
         if objview(markings.clear_markings(a)): return ('object#clear', f'{kind}', {})
         if objview(markings.set_markings(a, list(m))) != set(m): return ('object#set == clear then add', f'{kind}', {})
         if strip(a) != strip(o): return ('object#non-marking content unchanged', f'{kind}', {})
-    chk.bounded('object-level laws', list(ocases()), ocheck, classify=lambda c: c, bound='3 objects x 3 prior marking sets x 3 marking arguments')
+    chk.bounded('object-level laws', list(ocases()), ocheck, classify=lambda c: c, bound='4 objects x 3 prior marking sets x 3 marking arguments')
+
+    # marking definitions are markable but not versionable: the queries follow the same path-tree model on them (object and dictionary form), mutation is refused
+    md = stix2.v21.MarkingDefinition(definition_type='statement', definition=stix2.v21.StatementMarking('s'), name='n', created_by_ref='identity--311b2d2d-f010-4473-83ec-1edf84858f4c',
+                                     granular_markings=[{'marking_ref': M1, 'selectors': ['name', 'definition.statement']}, {'lang': LANG, 'selectors': ['definition']},
+                                                        {'marking_ref': M2, 'selectors': ['created', 'created_by_ref']}], object_marking_refs=[M2])
+    mds = {'marking-definition object': md, 'marking-definition dictionary': json.loads(md.serialize())}
+
+    def md_cases():
+        for k in mds:
+            for sel in ('name', 'definition', 'definition.statement', 'created', 'created_by_ref', 'definition_type'):
+                for inh, desc in itertools.product([False, True], repeat=2): yield (k, sel, inh, desc)
+
+    def md_check(case):
+        k, sel, inh, desc = case; o = mds[k]
+        got = set(markings.get_markings(o, sel, inherited=inh, descendants=desc)); exp = expected_get(o, sel, inh, desc)
+        if got != exp: return (f'query#get_markings follows the path tree (inherited={inh}, descendants={desc})', f'{k}: get_markings({sel}, inherited={inh}, descendants={desc}) = {sorted(x[-6:] for x in got)}, path-tree model {sorted(x[-6:] for x in exp)}', {})
+        for m in MARKS:
+            if markings.is_marked(o, m, sel, inherited=inh, descendants=desc) != (m in got): return ('query#is_marked(M) <=> M in get_markings', f'{k}: {sel} {m[-4:]} inherited={inh} descendants={desc}', {})
+        if k.endswith('object'):
+            for fn in (lambda: markings.add_markings(o, M1, sel), lambda: markings.clear_markings(o, sel), lambda: markings.add_markings(o, M1, None)):
+                try: r = fn()
+                except (stix2.exceptions.STIXError, ValueError): continue
+                if view(o) != view(md) or objview(o) != objview(md): return ('frame#marking definition unchanged', f'{k}: a refused or accepted marking operation changed the marking definition', {})
+    chk.bounded('marking definitions: queries against the path-tree model', list(md_cases()), md_check, classify=lambda c: c, bound='marking definition as object and dictionary x 6 selectors x 4 flag combinations x 3 markings')
